@@ -114,7 +114,15 @@ Triples(T) ==
     \* zero divisor, zero factors
     \cup {<<F(T), F(T), ZZero>>, <<ZZero, ZZero, ZZero>>, <<T.max, T.max, ZZero>>, <<ZZero, T.max, ZOne>>, <<T.max, ZZero, ZOne>>}
     \* sub-unit results
-    \cup UNION {SignTriples(T, x, y, z) : x \in Units({1, 2}), y \in Units({1, 3}), z \in {T.max, F(T), ZFromInt(7)}})
+    \cup UNION {SignTriples(T, x, y, z) : x \in Units({1, 2}), y \in Units({1, 3}), z \in {T.max, F(T), ZFromInt(7)}}
+    \* 256-bit by 128-bit long division: quotients whose low 64-bit word is 2^64 - 2 with a divisor just above
+    \* one factor (found by the seeded random search; kept as fixed triples)
+    \cup (IF T.bits = 128
+          THEN UNION {SignTriples(T, ZSub(ZPow2(p[1]), ZOne), ZFromDec(p[2]), ZAdd(ZFromDec(p[2]), ZFromInt(p[3]))) :
+                        p \in {<<102, "3836030005753378615522236843275493591", 1>>,
+                               <<67, "8017132924543464544558133185184056300", 518>>,
+                               <<69, "1350186674624000761051862831718666490", 417>>}}
+          ELSE {}))
 
 Init == tn \in Sel
 Next == UNCHANGED tn
